@@ -3,6 +3,7 @@ Spec: spec/Message.tla on top of spec/Wire.tla; cases from spec/MC_Message.tla."
 import random
 from concurrent.futures import ThreadPoolExecutor
 
+from . import fakes  # noqa: F401  (installs the quiet log observer, repo path)
 from . import core, tlc, refwire, wirecodec as wc
 from .tlaval import norm
 
